@@ -124,3 +124,5 @@ Fixpoint spec_fail_last_runs (canc : bool) (ob : eobs) : bool :=
 
 Definition spec_C04 (sc : escen) (ob : eobs) : bool :=
   spec_lifecycle sc ob && spec_fail_last_runs (es_precancel sc) ob.
+
+Definition spec_C17 (sc : escen) (ob : eobs) : bool := spec_C01 sc ob.
